@@ -1,6 +1,7 @@
 import Casm.Proofs.IterModel
 import Casm.Proofs.AssembleLemmas
 import Casm.Proofs.BudgetMono
+import Casm.Proofs.KindInv
 /-!
 # C09 — the iteration budget decides whether a program assembles, never to what
 
@@ -17,8 +18,8 @@ import Casm.Proofs.BudgetMono
   same state (`guessing_agrees_with_strict`, resting on `evaluation_is_monotone`: guessing only
   replaces errors by `Unknown`, strict-only checks only add errors); from a fixed point every
   further pass stays there until the loop ends or the confirming pass accepts.
-  Hypotheses: `NoClash nodes` (decidable, evaluated on every certificate run, see C02) and the
-  *inner* budget of `asm` blocks — the same `--iters` option, read from the static part `st` — is
+  `budget_monotone_after_front_end` is the same for every node list the front end produces, with
+  no well-formedness hypothesis (`Casm.frontEnd_noClash`).  What is held fixed: the *inner* budget of `asm` blocks — the same `--iters` option, read from the static part `st` — is
   held fixed while the outer budget varies; the joint variation is covered by the budget sweep.
   Budget 1 (the only pass is the first one) is also left to the sweep.
 * `budget_monotone_of_laws` — the same statement for the generic loop skeleton over any pass
@@ -65,6 +66,13 @@ theorem budget_monotone (st : Static) (nodes : List AstNode) (hwf : NoClash node
     (d0 : Defs) (k : Nat) (d : Defs) (rep : List String) (h : resolveIterativelyN st nodes n d0 = .ok (k, d, rep)) :
     ∃ k' rep', resolveIterativelyN st nodes m d0 = .ok (k', d, rep') :=
   budget_monotone_model st nodes hwf n m hn hnm d0 k d rep h
+
+/-- **C09 (monotonicity) for every program the front end accepts**: no hypothesis on the nodes -/
+theorem budget_monotone_after_front_end (opts : Opts) (fs : SrcFiles) (roots : List (List Char)) (st : Static) (nodes : List AstNode)
+    (defs0 : Defs) (hf : frontEnd opts fs roots = .ok (st, nodes, defs0)) (n m : Nat) (hn : 2 ≤ n) (hnm : n ≤ m)
+    (k : Nat) (d : Defs) (rep : List String) (h : resolveIterativelyN st nodes n defs0 = .ok (k, d, rep)) :
+    ∃ k' rep', resolveIterativelyN st nodes m defs0 = .ok (k', d, rep') :=
+  budget_monotone st nodes (frontEnd_noClash opts fs roots st nodes defs0 hf) n m hn hnm defs0 k d rep h
 
 /-- lowering the budget can only turn success into an error, never into a different state -/
 theorem lower_budget_same_or_error_model (st : Static) (nodes : List AstNode) (hwf : NoClash nodes) (n m : Nat) (hn : 2 ≤ n) (hnm : n ≤ m)
